@@ -1,5 +1,6 @@
 CONSTANT MaxHeight = 2
 CONSTANT MaxCols = 3
+CONSTANT WideCols = {17}
 CONSTANT Emit = TRUE
 INIT Init
 NEXT Next
